@@ -13,8 +13,9 @@ import (
 
 func init() {
 	register(&propSpec{
-		ID:    "C16",
-		Title: "Cached sessions are shared, stay usable while held, are torn down exactly once",
+		ID:            "C16",
+		UsesCallGraph: true,
+		Title:         "Cached sessions are shared, stay usable while held, are torn down exactly once",
 		Explanation: "Structural necessary conditions of C16: (get-atomic) cacheWrapper.Get performs lookup-or-load and the usage increment in one critical section of c.mu, and every Get/Set on the session cache happens under c.mu; " +
 			"(teardown-waits) sharedEncryption.Remove closes the wrapped session only after leaving a loop that waits (Cond.Wait) while accessCounter > 0, all under s.mu; every decrement is followed by Broadcast; the counter is " +
 			"mutated only under s.mu; (single-teardown-path) Remove is called only from the evict callback installed by newSessionCache, that callback never closes a session directly, and SessionFactory.Close reaches the cache's " +
